@@ -724,7 +724,8 @@ def run_impl(case):
         if now["tb"] != sh["tb"] and not any(f["op"] == i for f in failures):
             fail("C12/add_table_row/wrong-row", i, f"after {op}: tables {now['tb']} expected {sh['tb']}")
         for t, cols in now["tb"]:
-            if len({len(v) for _, v in cols}) > 1 and kind == "addrow" and not any(f["op"] == i for f in failures):
+            was = dict(before["tb"]).get(t, [])
+            if len({len(v) for _, v in cols}) > 1 and len({len(v) for _, v in was}) <= 1 and not any(f["op"] == i for f in failures):
                 fail("C12/add_table_row/misaligned", i, f"table t{t} has columns of different lengths: {cols}")
         # resynchronise so that one defect is reported once, at its origin
         if any(f["op"] == i for f in failures):
